@@ -206,8 +206,11 @@ def _alarm(signum, frame):
     raise Hang()
 
 
+HANG_LIMIT = 25          # after that many hangs the rest of the peg terms of this process is not run
+
+
 def run_term(p, w):
-    signal.setitimer(signal.ITIMER_REAL, 5.0, 0.02)
+    signal.setitimer(signal.ITIMER_REAL, 2.0, 0.02)
     try:
         try:
             return _run_term(p, w)
@@ -241,6 +244,9 @@ def _run_term(p, w):
 def peg(job):
     events = []
     for item in job["terms"]:
+        if STATS.get("hangs", 0) >= HANG_LIMIT:
+            STATS["terms_not_run_after_hangs"] = STATS.get("terms_not_run_after_hangs", 0) + 1
+            continue
         p = build(item["t"], item["how"])
         res, cres = [], []
         for w in job["ws"]:
